@@ -34,6 +34,39 @@ def directed(judge):
     return out
 
 
+def module_cases(c):
+    """TLC-generated module descriptions (Modules.tla) as one-module histories"""
+    import os
+    import random
+    from lib.tlc import MachineryError
+    devs = c.dev_constants(["Dev_C08_LayerNormNoAffine"])
+
+    def cfg(name, dev, invs):
+        p = os.path.join(c.wd, name)
+        open(p, "w").write("INIT Init\nNEXT Next\nCONSTANTS\n  Dev_C08_LayerNormNoAffine = %s\n" % ("TRUE" if dev else "FALSE")
+                           + "".join(f"INVARIANT {i}\n" for i in invs) + "CHECK_DEADLOCK FALSE\n")
+        return p
+    c.mc("Modules", cfg("MC_Modules.cfg", False, ["HyperMirrored", "NoSpuriousFailure"]), require_actions=["QCreate"])
+    c.mc_expect_violation("Modules", cfg("MC_Modules_dev.cfg", True, ["NoSpuriousFailure"]), "NoSpuriousFailure")
+    descs = c.gen("Modules", cfg("Gen_Modules.cfg", devs["Dev_C08_LayerNormNoAffine"], ["Emit"]))
+    if len(descs) < 1000:
+        raise MachineryError("too few module descriptions")
+    c.extra["module_descriptions_in_model"] = len(descs)
+    rnd = random.Random(c.seed + 3)
+    if c.quick:
+        descs = rnd.sample(descs, 260)
+    out = []
+    wqs = ["qint8", "qfloat8", "qint4", "qint2"]
+    for i, d in enumerate(descs):
+        aq = d["aq"]
+        prog = [{"a": "Quantize", "wq": wqs[i % 4], "aq": aq, "filter": "all"}, {"a": "Forward", "x": "x1"}]
+        if aq != "none":
+            prog += [{"a": "EnterCalib", "momentum": "m90", "streamline": False}, {"a": "CalibBatch", "batch": "b1"}, {"a": "ExitCalib"}, {"a": "Forward", "x": "x2"}]
+        prog += [{"a": "Freeze"}, {"a": "Forward", "x": "x1"}]
+        out.append({"arch": d["desc"], "prog": prog})
+    return out
+
+
 def body(c, judge):
     need = {"C08": ["Quantize", "Forward"], "C09": ["Freeze", "DeepCopy"], "C10": ["Save", "Load"], "C11": ["OptStep", "Forward"],
             "C13": ["RaiseIn", "ExitCalib", "Forward"]}[judge]
@@ -41,6 +74,8 @@ def body(c, judge):
     if c.quick and len(dirs) > 400:
         import random
         dirs = random.Random(c.seed).sample(dirs, 400)
+    if judge == "C08":
+        dirs += module_cases(c)
     tr, consts = L.run(c, judge, dirs, need_actions=need)
     ctrls = []
     if judge == "C13":
